@@ -279,6 +279,9 @@ func run(r *core.Run) {
 	for _, kind := range kinds {
 		runChain(r, kind)
 	}
+
+	// ---- 4. whole rows: several protected typed columns through the real column loops ----
+	runRows(r)
 }
 
 // failure policies exercised on the read path for a kind of setting (all of them for encryption-only columns; the ones
@@ -641,7 +644,10 @@ func checkChainValue(r *core.Run, db, kind, typ, effective string, pol policyCas
 	}
 	// never the plaintext, whole or in part (marker of ≥ 8 bytes)
 	if kindOut == "value" {
-		r.Check(!bytes.Equal(out, specEncode(db, typ, binaryFmt, m)) || effective == "default_value" && bytes.Equal(specEncode(db, typ, binaryFmt, m), out), "reveal-to-non-owner", fmt.Sprintf("%s %s %s: %s reader receives the owner's value", db, kind, typ, reader))
+		// (a random token of a 1–3 byte string can coincide with the string itself: that is not a reveal)
+		if !(kind == "tokenized" && len(m) < 4) {
+			r.Check(!bytes.Equal(out, specEncode(db, typ, binaryFmt, m)) || effective == "default_value" && bytes.Equal(specEncode(db, typ, binaryFmt, m), out), "reveal-to-non-owner", fmt.Sprintf("%s %s %s: %s reader receives the owner's value", db, kind, typ, reader))
+		}
 		if i := bytes.Index(m, []byte("secret-marker")); i >= 0 {
 			r.Check(!bytes.Contains(out, []byte("secret-marker")), "partial-reveal", fmt.Sprintf("%s %s %s: %s reader receives part of the plaintext", db, kind, typ, reader))
 		}
